@@ -1131,3 +1131,47 @@ func namedResult(fn, cl *ssa.Function, fv *ssa.FreeVar) bool {
 	}
 	return false
 }
+
+// idOnlyOfFoundPair: TokenPair.GetID indexes Denoms[0]; on the zero pair that GetTokenPair returns together with
+// found == false it panics. Every GetID call whose receiver is (derived from) the pair result of a GetTokenPair call is
+// therefore dominated by that call's found result being true.
+func idOnlyOfFoundPair(c *Check, rule string, fns []*ssa.Function) int {
+	n := 0
+	for _, fn := range fns {
+		if len(fn.Blocks) == 0 {
+			continue
+		}
+		fa := c.P.FA(fn)
+		for _, cs := range c.P.CallsInOwn(fn) {
+			if !strings.HasSuffix(cs.Name, "aggregate/types.(TokenPair).GetID") {
+				continue
+			}
+			recv := c.P.ArgExprs(cs)[0].String()
+			i := strings.Index(recv, "aggregate/keeper.(Keeper).GetTokenPair(")
+			if i < 0 {
+				continue
+			}
+			// the call expression ends at the matching parenthesis
+			depth, j := 0, i
+			for ; j < len(recv); j++ {
+				if recv[j] == '(' {
+					depth++
+				} else if recv[j] == ')' {
+					depth--
+					if depth == 0 && j > i+len("aggregate/keeper.(Keeper).GetTokenPair") {
+						break
+					}
+				}
+			}
+			if j >= len(recv) || !strings.HasPrefix(recv[j+1:], "#0") {
+				continue
+			}
+			call := recv[i : j+1]
+			n++
+			conds := fa.PathCondStrings(cs.Ins.Block())
+			c.Req(conds[call+"#1"], rule, fmt.Sprintf("%s/GetID of %s", funcName(fn), trunc(call)), cs.Ins.Pos(), "under found",
+				"TokenPair.GetID is called on the pair returned by "+trunc(call)+" on a path where its found result has not been tested true: for an unknown id the pair is empty and GetID panics (index out of range)")
+		}
+	}
+	return n
+}
